@@ -30,7 +30,13 @@ LABELS = ['', 'a', 'B1', 'x', '2']
 ATOMS = ['C', 'N', '[#A]', '[#PEO]', 'O', '[NH3+]', 'Cl']
 
 AA_SKELETONS = gens.AA_SKELETONS + ['[NH3+]C', 'C[O-]', 'c1ccccc1C', 'C(=O)[O-]', 'CC(C)(C)C', 'C1CCCCC1', 'N#C', 'c1ccsc1',
-                                    'OCC(O)CO', '[CH2]C', 'C=CC=C', 'FC(F)F', 'BrC', 'CS(=O)(=O)C', 'C[N+](C)(C)C']
+                                    'OCC(O)CO', '[CH2]C', 'C=CC=C', 'FC(F)F', 'BrC', 'CS(=O)(=O)C', 'C[N+](C)(C)C',
+                                    # every way pysmiles' _write_edge_symbol decides: single bond between two aromatic
+                                    # atoms (written '-'), aromatic bond between aromatic atoms (implicit), order 1.5
+                                    # between non-aromatic atoms (written ':'), aromatic-aliphatic single bond
+                                    'c1ccccc1-c1ccccc1', 'c1ccccc1c1ccccc1', 'c1ccccc1-c1ccncc1', 'c1cc(-c2ccccc2)ccc1',
+                                    'C:C', 'CC:CC', 'c1ccccc1C', 'c1ccc2ccccc2c1', 'C1=CC=CC=C1',
+                                    'c1ccc(cc1)-c1ccccc1', 'c1cc[nH]c1', 'c1ccccc1-c1ccccc1-c1ccccc1']
 CG_NAMES = ['A', 'B', 'X', 'PEO']
 
 
@@ -202,6 +208,10 @@ class C08(common.Prop):
             {'kind': 'frag', 's': '{#PEO=[$]=COC[$A],#OHter=[$A]O,#PI=[$]=C}', 'aa': True},
             {'kind': 'frag', 's': '{#TC5=[!]ccc[!],#TN6a=[!]cnc[!]}', 'aa': True},
             {'kind': 'frag', 's': '{#A=[NH3+]C[$],#B=[$]C(=O)[O-]}', 'aa': True},
+            {'kind': 'frag', 's': '{#BP=[$]c1ccccc1-c1ccccc1[$]}', 'aa': True},
+            {'kind': 'frag', 's': '{#BP=c1ccccc1-c1ccccc1,#X=c1ccccc1c1ccccc1,#Y=C:C[$]}', 'aa': True},
+            {'kind': 'frag', 's': '{#T=[$]c1ccc(cc1)-c1ccc(cc1)-c1ccccc1}', 'aa': True},
+            {'kind': 'whole', 's': '{[#BP][#M]}.{#BP=c1ccccc1-c1ccccc1[$],#M=[$]C}', 'aa': True},
             {'kind': 'whole', 's': '{[#PEO][#PMMA][#PEO][#PMMA]}.{#PEO=[>]COC[<],#PMMA=[>]CC(C)[<]C(=O)OC}', 'aa': True},
             {'kind': 'whole', 's': '{[#TC5]1[#TC5][#TC5]1}.{#TC5=[$]cc[$]}', 'aa': True},
             {'kind': 'whole', 's': '{[#C]([#D])=[#C]}.{#D=COC,#C=C}', 'aa': True},
